@@ -27,7 +27,7 @@ from .. import gen as G
 PID = 'C16'
 RULE = ('omission cases = subsets of size 1-2 (quick) / 1-3 (thorough, up to 400 per rank and size) of {domain, each density, each diameter, each pair\'s potential/closure/omega} left '
         'unspecified on rank 1-3 systems; snapshot cases = random systems: wiring vs reference, System digest before/after createPRISM and solve, PRISM digest '
-        'before/after hostile edits of the System; failpoint cases = InjectedFault at each executable line of PRISM.__init__; sweep cases = 3-8 edits over '
+        'before/after hostile edits of the System; failpoint cases = InjectedFault at each executable line of PRISM.__init__, and at the 1st/2nd/3rd/7th cost evaluation of System.solve / PRISM.solve; sweep cases = 3-8 edits over '
         '{density, diameter, kT, potential, closure, omega, new Domain, Domain.dr/dk/length setters} each followed by solve and compared with a freshly built '
         'System; non-trivial = omission of >= 1 item / sweep with >= 3 compared steps / snapshot with >= 1 edit; distinct = distinct case digests')
 ASSUMPTIONS = ['"same result as a freshly built System" is decided on the identical deterministic solver path (zero guess, same options): converged results must agree to 1e-6 relative (bit-identical in practice; convention errors are O(1e-2..1))',
@@ -136,6 +136,10 @@ def setup(ctx):
 
     def cost(self, x):
         _S['cost'] += 1
+        if _S.get('fail_at') is not None:
+            _S['fail_count'] = _S.get('fail_count', 0) + 1
+            if _S['fail_count'] == _S['fail_at']:
+                raise InjectedFault('cost evaluation %d' % _S['fail_count'])
         return orig_cost(self, x)
     PRISM.__init__ = init
     PRISM.cost = cost
@@ -176,6 +180,9 @@ def cases(ctx):
     n = ctx.budget(6, 60)
     for it in range(n):
         yield {'kind': 'failpoint', 'seed': int(rng.integers(0, 2 ** 31)), 'rank': int(rng.integers(1, 4))}
+    n = ctx.budget(16, 400)
+    for it in range(n):
+        yield {'kind': 'solve_failpoint', 'seed': int(rng.integers(0, 2 ** 31)), 'rank': int(rng.integers(1, 4))}
     n = ctx.budget(48, 1600)
     for it in range(n):
         yield {'kind': 'sweep', 'seed': int(rng.integers(0, 2 ** 31)), 'rank': int(rng.integers(1, 4)), 'nsteps': int(rng.integers(3, 9))}
@@ -447,6 +454,47 @@ def run_failpoint(ctx, case):
     ctx.sample({'failpoints': {'lines': len(lines), 'fired': fired}}, limit=1)
 
 
+def run_solve_failpoint(ctx, case):
+    """crash points of a calculation: the k-th evaluation of the cost function raises; the System must be unchanged and re-usable"""
+    rng = np.random.default_rng(case['seed'])
+    sp = G.easy_spec(rng, rank=int(case['rank']), L=64, eta_max=0.15)
+    s = G.build(sp)
+    before = digest(s)
+    keep = copy.deepcopy(s)
+    opts = {'disp': False, 'maxiter': 30, 'fatol': 1e-10}
+    try:
+        for k in (1, 2, 3, 7):
+            for via in ('System.solve', 'PRISM.solve'):
+                _S['fail_at'], _S['fail_count'] = k, 0
+                try:
+                    with np.errstate(all='ignore'):
+                        if via == 'System.solve':
+                            s.solve(method='krylov', options=dict(opts))
+                        else:
+                            s.createPRISM().solve(method='krylov', options=dict(opts))
+                except InjectedFault:
+                    ctx.hook('failpoint.injected')
+                except G.SOLVE_ERRORS:
+                    pass
+                if digest(s) != before:
+                    ctx.violation('snapshot:aborted-solve-modifies-system', '%s aborted at cost evaluation %d left the System modified: %s' % (via, k, explain_diff(keep, s)[:3]))
+                    return
+    finally:
+        _S['fail_at'] = None
+    out = []
+    for system in (s, G.build(sp)):
+        try:
+            with np.errstate(all='ignore'):
+                p = system.solve(method='krylov', options=dict(opts))
+            out.append(prism_arrays(p))
+        except G.SOLVE_ERRORS:
+            out.append(None)
+    if (out[0] is None) != (out[1] is None) or (out[0] is not None and any(not np.array_equal(out[0][n], out[1][n], equal_nan=True) for n in out[0])):
+        ctx.violation('snapshot:system-not-reusable-after-aborted-solve', 'after aborted solves the System gives a different result than a fresh System')
+        return
+    ctx.nontrivial(case)
+
+
 # ----------------------------------------------------------------------------- sweeps
 
 def run_sweep(ctx, case):
@@ -509,4 +557,6 @@ def run_case(ctx, case):
         return run_snapshot(ctx, case)
     if k == 'failpoint':
         return run_failpoint(ctx, case)
+    if k == 'solve_failpoint':
+        return run_solve_failpoint(ctx, case)
     return run_sweep(ctx, case)
